@@ -16,16 +16,14 @@ open Lang Op
 
 /-! ## the state machine of `Antecedent.load` is the one of the source -/
 
-/-- **Tie A (code → model), partial.**  `Gen.Code.Antecedent_load` is regenerated from the source of `Antecedent.load`
-    on every run (`fv/pylean.py`; the local `proposition` is translated as an alias of the top of `stack`, the callee
-    `Function.infix_to_postfix` is the parameter `post`).  For every engine *whose variables all have a term*, every
-    behaviour of the callee and every text: an empty text is a `SyntaxError`, an exception of the callee is passed on,
-    and on the tokens of the postfix text the code raises the exception class the model `Op.antecedentLoadPostfix`
-    predicts and otherwise assigns to `self.expression` the tree of the model.  Without the hypothesis the two differ
-    (Python does not recognise the name of a variable without terms: `Variable.__len__`; see
-    `Op.antecedentLoad_model_differs`). -/
-theorem code_antecedentLoad_partial (e : EngineInfo) (post : String → Py.M String) (text : String)
-    (hterms : ∀ v ∈ e.vars, v.terms ≠ []) :
+/-- **Tie A (code → model).**  `Gen.Code.Antecedent_load` is regenerated from the source of `Antecedent.load` on every
+    run (`fv/pylean.py`; the local `proposition` is translated as an alias of the top of `stack`, the callee
+    `Function.infix_to_postfix` is the parameter `post`).  For every engine, every behaviour of the callee and every
+    text: an empty text is a `SyntaxError`, an exception of the callee is passed on, and on the tokens of the postfix
+    text the code raises the exception class the model `Op.antecedentLoadPostfix` predicts and otherwise assigns to
+    `self.expression` the tree of the model.  (Python's `if variable:` - a variable without terms is false,
+    `Variable.__len__` - is part of the model's look-up `EngineInfo.findVar`.) -/
+theorem code_antecedentLoad (e : EngineInfo) (post : String → Py.M String) (text : String) :
     if text = "" then Gen.Code.Antecedent_load.run e post text {} = .error .syntax else
     match post text with
     | .error x => Gen.Code.Antecedent_load.run e post text {} = .error x
@@ -33,13 +31,21 @@ theorem code_antecedentLoad_partial (e : EngineInfo) (post : String → Py.M Str
       match antecedentLoadPostfix e (Py.split s) with
       | .error k => Gen.Code.Antecedent_load.run e post text {} = .error k.toPy
       | .ok a => ∃ σ, Gen.Code.Antecedent_load.run e post text {} = .ok σ ∧ exprA σ.self_expression = some a :=
-  Op.code_antecedentLoad_partial e post text hterms
+  Op.code_antecedentLoad e post text
+
+/-- the name of a variable without terms is not recognised (Python's `if variable:` is false for it): `A is any`
+    over such a variable is rejected with a `SyntaxError` -/
+theorem termless_variable_not_recognised :
+    antecedentLoadPostfix ⟨[⟨"A", false, true, []⟩], ["any"]⟩ ["A", "is", "any"] = .error .syntax ∧
+    antecedentLoadPostfix ⟨[⟨"A", false, true, ["t"]⟩], ["any"]⟩ ["A", "is", "any"] = .ok (.prop "A" ["any"] none) := by
+  decide
 
 /-! ## grammar: every writing of every antecedent loads to that antecedent -/
 
 /-- **load ∘ print = id.**  For every well-formed element table in which `and`, `or` are binary elements, every
-    engine whose variables are not called `and` / `or`, every antecedent `a` over the engine's names (no bound on
-    depth, number of hedges, …) whose words are plain words (not element names or punctuation), and every writing of
+    engine whose variables are not called `and` / `or`, every antecedent `a` over the engine's names (`AnteOK`: its
+    variables have at least one term - the loader does not recognise the name of a variable without terms, not even
+    in `v is any`; no bound on depth, number of hedges, …) whose words are plain words (not element names or punctuation), and every writing of
     `a` with at least the necessary and any number of redundant parentheses: the shunting-yard loop followed by the
     state machine of `Antecedent.load` builds exactly `a`. -/
 theorem load_print (tbl : Table) (hT : tbl.WellFormed) (e : EngineInfo) (he : EngineOK e) (eAnd eOr : Elem)
